@@ -61,7 +61,11 @@ Dist(c) == HMax(HMax(HAbs(c[1]), HAbs(c[2])), HAbs(c[1] + c[2]))
 Ring(c) == Dist(c) + 1
 Box(d)  == {<<i, j>> : i \in (-d)..d, j \in (-d)..d}
 Cells(N) == IF N <= 0 THEN {} ELSE {c \in Box(N - 1) : Dist(c) <= N - 1}
-RingCells(r) == {c \in Box(r - 1) : Dist(c) = r - 1}
+\* the cells at distance exactly d.  max(|i|,|j|,|i+j|) = d forces |i| = d or |j| = d or |i+j| = d, so it is
+\* enough to filter those three pairs of lattice lines instead of the whole box (cost 6(2d+1), not (2d+1)^2).
+Shell(d) == {<<i, j>> : i \in {-d, d}, j \in (-d)..d} \cup {<<i, j>> : i \in (-d)..d, j \in {-d, d}}
+            \cup {<<i, s - i>> : i \in (-d)..d, s \in {-d, d}}
+RingCells(r) == {c \in Shell(r - 1) : Dist(c) = r - 1}
 CAdd(a, b) == <<a[1] + b[1], a[2] + b[2]>>
 CSub(a, b) == <<a[1] - b[1], a[2] - b[2]>>
 
@@ -76,21 +80,31 @@ XUnit(o) == IF o = "flats" THEN "halfside" ELSE "halfpitch"
 YUnit(o) == IF o = "flats" THEN "halfpitch" ELSE "halfside"
 WX(o) == IF o = "flats" THEN 1 ELSE 3
 WY(o) == IF o = "flats" THEN 3 ELSE 1
-\* a, b are lattice vectors (differences of cells); XY is linear
-Cross(o, a, b) == XY(o, a)[1] * XY(o, b)[2] - XY(o, a)[2] * XY(o, b)[1]     \* * sqrt(3)(side/2)^2
-Dot(o, a, b)   == WX(o) * XY(o, a)[1] * XY(o, b)[1] + WY(o) * XY(o, a)[2] * XY(o, b)[2]   \* * (side/2)^2
+\* on plane vectors A, B = XY(o, .)
+CrossV(A, B)   == A[1] * B[2] - A[2] * B[1]                                   \* * sqrt(3)(side/2)^2
+DotV(o, A, B)  == WX(o) * A[1] * B[1] + WY(o) * A[2] * B[2]                   \* * (side/2)^2
+\* on lattice vectors a, b (differences of cells); XY is linear
+Cross(o, a, b) == CrossV(XY(o, a), XY(o, b))
+Dot(o, a, b)   == DotV(o, XY(o, a), XY(o, b))
 Len2(o, a)     == Dot(o, a, a)
 Pitch2         == 12                                                         \* pitch^2 = 3 side^2 = 12 (side/2)^2
 
-\* polar angle of v measured counter-clockwise from the direction s, in [0, 2pi): exact comparison
-Half(o, s, v) == IF Cross(o, s, v) > 0 \/ (Cross(o, s, v) = 0 /\ Dot(o, s, v) > 0) THEN 0 ELSE 1
-AngBefore(o, s, a, b) == \/ Half(o, s, a) < Half(o, s, b)
-                         \/ Half(o, s, a) = Half(o, s, b) /\ Cross(o, a, b) > 0
+\* polar angle of V measured counter-clockwise from the direction S, in [0, 2pi): exact comparison.
+\* HalfV = 0 for angles in [0, pi), 1 for [pi, 2pi); inside one half the cross product orders the angles.
+HalfV(o, S, V) == LET cr == CrossV(S, V) IN IF cr > 0 \/ (cr = 0 /\ DotV(o, S, V) > 0) THEN 0 ELSE 1
+BeforeV(o, S, A, B) == LET ha == HalfV(o, S, A)
+                           hb == HalfV(o, S, B)
+                       IN ha < hb \/ (ha = hb /\ CrossV(A, B) > 0)
+AngBefore(o, s, a, b) == BeforeV(o, XY(o, s), XY(o, a), XY(o, b))
 
 (* ------------------------------------------ ring / position (reference) ------------------------------------------ *)
 RingStart(r) == <<r - 1, 0>>
+\* 1 + number of cells of the same ring whose polar angle, counted from the ring's start cell, is smaller
 PosIn(o, c) == IF c = <<0, 0>> THEN 1
-               ELSE 1 + Cardinality({d \in RingCells(Ring(c)) : AngBefore(o, RingStart(Ring(c)), d, c)})
+               ELSE LET r  == Ring(c)
+                        S  == XY(o, RingStart(r))
+                        C  == XY(o, c)
+                    IN 1 + Cardinality({d \in RingCells(r) : BeforeV(o, S, XY(o, d), C)})
 RingPosIn(o, c) == <<Ring(c), PosIn(o, c)>>
 RingPos(c) == RingPosIn("flats", c)
 NumInRing(r) == Cardinality(RingCells(r))
@@ -112,8 +126,10 @@ Neighbours(c) == NeighboursIn("flats", c)
 
 (* ------------------------------------------ counting (reference) ------------------------------------------ *)
 TotalUpTo(r) == Cardinality(Cells(r))
-\* least number of rings whose cells number at least n
-RingsToHold(n) == CHOOSE r \in 0..(n + 1) : TotalUpTo(r) >= n /\ \A q \in 0..(r - 1) : TotalUpTo(q) < n
+\* least number of rings whose cells number at least n: the first r = 0, 1, 2, ... with TotalUpTo(r) >= n
+RECURSIVE RingsFrom(_, _)
+RingsFrom(r, n) == IF TotalUpTo(r) >= n THEN r ELSE RingsFrom(r + 1, n)
+RingsToHold(n) == RingsFrom(0, n)
 
 (* ------------------------------------------ labels ------------------------------------------ *)
 \* python f"{n:03d}": width 3 including the sign
@@ -123,7 +139,7 @@ LabelOf(nums) == IF Len(nums) = 2 THEN Pad3(nums[1]) \o "-" \o Pad3(nums[2])
                  ELSE Pad3(nums[1]) \o "-" \o Pad3(nums[2]) \o "-" \o Pad3(nums[3])
 \* hex labels are ring-position[-k]  (HexGrid.getLabel); the numbers a label denotes:
 HexLabelNums(c)     == RingPos(c)
-HexLabelNums3(c, k) == <<RingPos(c)[1], RingPos(c)[2], k>>
+HexLabelNums3(c, k) == LET rp == RingPos(c) IN <<rp[1], rp[2], k>>
 
 (* ------------------------------------------ transcriptions of the code ------------------------------------------ *)
 CodeRingPos(c) ==
@@ -172,14 +188,16 @@ CodeRingsToHold(n) ==
 \* ring = hex distance + 1, where hex distance is the lattice graph distance: neighbours differ by at most one
 \* ring and every cell but the centre has a neighbour one ring further in.
 ThmRingIsGraphDistance(c) ==
+    LET nb == Neighbours(c) IN
     /\ Ring(c) = Dist(c) + 1
-    /\ \A k \in 1..6 : HAbs(Dist(Neighbours(c)[k]) - Dist(c)) <= 1
-    /\ (c # <<0, 0>>) => \E k \in 1..6 : Dist(Neighbours(c)[k]) = Dist(c) - 1
+    /\ \A k \in 1..6 : HAbs(Dist(nb[k]) - Dist(c)) <= 1
+    /\ (c # <<0, 0>>) => \E k \in 1..6 : Dist(nb[k]) = Dist(c) - 1
     /\ (c = <<0, 0>>) <=> Dist(c) = 0
 \* indices <-> (ring, position) are mutually inverse at c
 ThmRingPosInverse(c) ==
-    /\ ValidRingPos(RingPos(c)[1], RingPos(c)[2])
-    /\ FromRingPos(RingPos(c)[1], RingPos(c)[2]) = c
+    LET rp == RingPos(c) IN
+    /\ ValidRingPos(rp[1], rp[2])
+    /\ FromRingPos(rp[1], rp[2]) = c
 \* six neighbours, one pitch away, counter-clockwise (consecutive ones are 60 degrees apart, turning left), the
 \* first in the upper-right quadrant; both orientations
 ThmNeighbours(o, c) ==
@@ -196,7 +214,7 @@ ThmOrientationFree(c) ==
     /\ NeighboursIn("flats", c) = NeighboursIn("corners", c)
 \* the code's arithmetic is the geometric definition
 ThmCodeRingPos(c) == CodeRingPos(c) = RingPos(c)
-ThmCodeFromRingPos(c) == CodeFromRingPos(RingPos(c)[1], RingPos(c)[2]) = c
+ThmCodeFromRingPos(c) == LET rp == RingPos(c) IN CodeFromRingPos(rp[1], rp[2]) = c
 ThmCodeNeighbours(c) == CodeNeighbours(c) = Neighbours(c)
 \* the centre of a cell is one pitch times its ring distance away at the ring corners, never closer than
 \* sqrt(3)/2 of that (cells of ring r lie between the inscribed and circumscribed circle of the ring hexagon)
@@ -207,20 +225,21 @@ ThmRingRadius(o, c) == LET d == Dist(c) IN
 \* ring r>1 holds 6(r-1) cells numbered contiguously 1..6(r-1); consecutive numbers are adjacent cells and the
 \* last is adjacent to the first (the numbering walks the ring once, counter-clockwise)
 ThmRingContiguous(r) ==
-    LET n   == NumInRing(r)
-        pos == [c \in RingCells(r) |-> PosIn("flats", c)]
-        at  == [p \in 1..n |-> CHOOSE c \in RingCells(r) : pos[c] = p]
+    LET n     == NumInRing(r)
+        \* the ring's numbering as an (eagerly evaluated) set of pairs <<cell, position>>
+        pairs == {<<c, PosIn("flats", c)>> : c \in RingCells(r)}
+        at(p) == (CHOOSE pr \in pairs : pr[2] = p)[1]
     IN
     /\ n = (IF r = 1 THEN 1 ELSE 6 * (r - 1))
-    /\ {pos[c] : c \in RingCells(r)} = 1..n
-    /\ at[1] = RingStart(r)
+    /\ {pr[2] : pr \in pairs} = 1..n
+    /\ at(1) = RingStart(r)
     /\ r > 1 => \A p \in 1..n :
-            LET a == at[p]
-                b == at[(p % n) + 1]
+            LET a == at(p)
+                b == at((p % n) + 1)
             IN /\ Len2("flats", CSub(b, a)) = Pitch2
                /\ Cross("flats", a, b) > 0
     /\ \A p \in {0, n + 1} : CodeFromRingPos(r, p) = CodeRaises        \* refusals: exactly outside 1..n
-    /\ \A p \in 1..n : CodeFromRingPos(r, p) = at[p]
+    /\ \A p \in 1..n : CodeFromRingPos(r, p) = at(p)
 ThmCounts(r) ==
     /\ CodeNumInRing(r) = NumInRing(r)
     /\ CodeTotalUpTo(r) = TotalUpTo(r)
@@ -234,9 +253,11 @@ ThmRingsToHold(n) ==
 \* -- whole lattice -------------------------------------------------------------------------------------------
 \* labels are injective on the cells within N rings (so an inverse exists), with and without an axial index
 ThmLabelsInjective(N) ==
-    /\ Cardinality({LabelOf(HexLabelNums(c)) : c \in Cells(N)}) = Cardinality(Cells(N))
-    /\ Cardinality({LabelOf(HexLabelNums3(c, k)) : c \in Cells(N), k \in 0..1}) = 2 * Cardinality(Cells(N))
+    LET rps == {<<c, RingPos(c)>> : c \in Cells(N)} IN
+    /\ Cardinality({LabelOf(pr[2]) : pr \in rps}) = Cardinality(Cells(N))
+    /\ Cardinality({LabelOf(<<pr[2][1], pr[2][2], k>>) : pr \in rps, k \in 0..1}) = 2 * Cardinality(Cells(N))
 ThmRingPosBijection(N) ==
-    /\ Cardinality({RingPos(c) : c \in Cells(N)}) = Cardinality(Cells(N))
-    /\ {RingPos(c) : c \in Cells(N)} = {<<r, p>> \in (1..N) \X (1..(6 * N)) : ValidRingPos(r, p)}
+    LET rps == {RingPos(c) : c \in Cells(N)} IN
+    /\ Cardinality(rps) = Cardinality(Cells(N))
+    /\ rps = UNION {{<<r, p>> : p \in 1..NumInRing(r)} : r \in 1..N}
 =====================================================================================================
